@@ -33,7 +33,7 @@ ASSUMPTIONS = [
     "names, colours and synteny labels only influence the text of a node (hence its measured size), "
     "not the branch structure; they are not modelled",
     "the evaluator's loss count is its own formula (localRecCost: speciation d1+d2-2, duplication d1+d2, "
-    "transfer d_conserved), tied to recCost by SR.C13.C13_loss_count_is_evaluator",
+    "transfer d_conserved), tied to recCost by SR.C13.C13_losses_cost / evalLossCount_eq_nFloss / C13_losses_species",
 ]
 OPEN = [
     "TikZ text beyond statement kinds (fork statements, tex.measure ordering, names/colours/labels) is not in the C13 "
